@@ -143,8 +143,17 @@ fn main() {
                     Ok(job) => match mode_ref.as_str() {
                         "gen" => gen::run(&job),
                         "serdecase" => serdecase(&job),
-                        "topsort" => topo::run(&job),
-                        "safeint" => safeint::run(&job),
+                        // a panic of the code under test is data: the job's result says so (gen::run catches its own)
+                        "topsort" | "safeint" => {
+                            let run = if mode_ref.as_str() == "topsort" { topo::run } else { safeint::run };
+                            match std::panic::catch_unwind(std::panic::AssertUnwindSafe(|| run(&job))) {
+                                Ok(v) => v,
+                                Err(e) => {
+                                    let msg = e.downcast_ref::<String>().cloned().or_else(|| e.downcast_ref::<&str>().map(|s| s.to_string())).unwrap_or_default();
+                                    json!({"id": job["id"], "status": "panic", "panic": msg})
+                                }
+                            }
+                        }
                         _ => json!({"status":"badmode"}),
                     },
                 };
